@@ -634,6 +634,15 @@ func (pp c07) drawParams(c *core.Ctx, s *dp.Schema, kids []*dp.SNode, tlist *dp.
 	}
 	// grouped spelling: alternatives that share a prefix written as prefix(rest1;rest2), the same set of paths
 	grouped := func() ([][]string, string) {
+		if r.Intn(4) == 0 && len(paths) >= 2 {
+			// a group that starts the expression: (p1;p2)
+			alts := [][]string{pick(), pick()}
+			var parts []string
+			for _, a := range alts {
+				parts = append(parts, strings.Join(a, "/"))
+			}
+			return alts, url.QueryEscape("(" + strings.Join(parts, ";") + ")")
+		}
 		for try := 0; try < 8; try++ {
 			pre := pick()
 			var ext [][]string
